@@ -127,8 +127,13 @@ def drop_attrs_and_docs(text, log):
             break
         ob = masked.index("[", m.start())
         cb = lex.match_close(masked, ob)
-        text = text[:m.start()] + text[cb + 1:]
+        attr = text[ob + 1:cb]
+        keep = ""
+        if re.match(r"\s*derive\s*\(", attr) and re.search(r"\bDebug\b", attr):
+            keep = "\x00[derive(Debug)]"   # re-inserted below; Clone/PartialEq are re-declared with specs in the shim
+        text = text[:m.start()] + keep + text[cb + 1:]
         n_attr += 1
+    text = text.replace("\x00[derive(Debug)]", "#[derive(Debug)]")
     log.hit("R1 attribute dropped", n_attr)
     # doc comments
     out = []
